@@ -362,7 +362,13 @@ func (r *resolverState) resolveType(ns types.Path, t ast.IsType) (IsType, error)
 	case ast.BoolType:
 		return BoolType{}, nil
 	case ast.ExtensionType:
-		return ExtensionType(t), nil
+		// the language has four extension types; any other name (the JSON form {"type": "Extension", "name": "foo"})
+		// has no meaning, and its text form `foo` would read as a reference to an undeclared type
+		switch t {
+		case "ipaddr", "decimal", "datetime", "duration":
+			return ExtensionType(t), nil
+		}
+		return nil, fmt.Errorf("unknown extension type %q", string(t))
 	case ast.SetType:
 		elem, err := r.resolveType(ns, t.Element)
 		if err != nil {
